@@ -98,13 +98,19 @@ def run_session(exe, session, env=None, wrapper=None, go_timeout=120, slow=1.0):
     res = {"tag": session["tag"], "gos": [], "boards": [], "perfts": [], "problems": [], "cmds": []}
     t_start = time.time()
     dead = False
+    bookpath = None
     for st in session["steps"]:
         kind = st[0]
         if dead:
             break
-        if kind == "send":
-            res["cmds"].append(st[1])
-            if not pr.send(st[1]):
+        if kind == "bookfile":
+            fd, bookpath = tempfile.mkstemp(prefix="verif-book-", suffix=".bin")
+            os.write(fd, bytes.fromhex(st[1]))
+            os.close(fd)
+        elif kind == "send":
+            line = st[1].replace("@BOOK@", bookpath or "")
+            res["cmds"].append(line)
+            if not pr.send(line):
                 dead = True
         elif kind == "sync":
             res["cmds"].append("isready")
@@ -197,6 +203,11 @@ def run_session(exe, session, env=None, wrapper=None, go_timeout=120, slow=1.0):
     res["rc"], res["stderr"], res["hung_on_quit"] = rc, err, hung
     res["wall"] = time.time() - t_start
     res["all_bestmoves"] = sum(1 for l in pr.lines if l.startswith("bestmove"))
+    if bookpath:
+        try:
+            os.remove(bookpath)
+        except OSError:
+            pass
     return res
 
 
